@@ -3,7 +3,8 @@ import json
 import os
 import time
 
-from . import facts, matrix, rules_decl, rules_val
+from . import facts, matrix, rules_decl, rules_val, rules_pair, rules_struct
+from .model import LDG, LUG, DMG, UMG, DWG, UWG
 from .model import Model
 from .report import EVIDENCE, Finding, RuleResult, finish
 
@@ -76,7 +77,132 @@ def c07(m, tier):
             rules_val.rule_getlabel(m), rules_decl.rule_throw(m)]
 
 
+def _pair(m, classes, rules, minimum):
+    e = rules_pair.pair_engine(m, classes)
+    out = [e.results[r] for r in rules] + [e.results['F-PAIR.U']]
+    for r in out:
+        if r.rule in minimum:
+            r.require_sites(minimum[r.rule], 'sites')
+    return out
+
+
+def only_functions(res, prefixes):
+    """restrict a result to findings in functions of the given classes (the counts keep describing the whole rule)"""
+    res.findings = [f for f in res.findings if f.function.startswith(tuple(prefixes))]
+    return res
+
+
+def c01(m, tier):
+    return _pair(m, [LDG], ['F-PAIR.N', 'F-PAIR.S'], {'F-PAIR.N': 30, 'F-PAIR.S': 5}) + [
+        rules_struct.rule_insertion_guard(m), rules_struct.rule_hasedge(m), rules_struct.rule_full_loops(m),
+        rules_struct.rule_observers(m), rules_decl.rule_encapsulation(m)]
+
+
+def c02(m, tier):
+    return _pair(m, [LUG], ['F-PAIR.M', 'F-PAIR.N', 'F-KEY'], {'F-PAIR.M': 20, 'F-PAIR.N': 20, 'F-KEY': 15}) + [
+        rules_struct.rule_ordered_edge(m), rules_struct.rule_selfloop_convention(m), rules_struct.rule_insertion_guard(m),
+        rules_struct.rule_hasedge(m), rules_struct.rule_full_loops(m), rules_struct.rule_observers(m),
+        rules_decl.rule_encapsulation(m)]
+
+
+def c03(m, tier):
+    return _pair(m, None, ['F-PAIR.L', 'F-KEY'], {'F-PAIR.L': 60, 'F-KEY': 30}) + [
+        rules_struct.rule_label_writes(m), rules_val.rule_getlabel(m), rules_struct.rule_hasedge(m),
+        rules_struct.rule_insertion_guard(m)]
+
+
+def c04(m, tier):
+    return _pair(m, [DMG, UMG, LDG, LUG], ['F-PAIR.N', 'F-PAIR.L', 'F-PAIR.T', 'F-PAIR.M', 'F-KEY'],
+                 {'F-PAIR.N': 40, 'F-PAIR.L': 30, 'F-PAIR.T': 20, 'F-PAIR.M': 20, 'F-KEY': 20}) + [
+        rules_struct.rule_positive_multiplicity(m), rules_struct.rule_insertion_guard(m),
+        rules_struct.rule_observers(m), rules_struct.rule_selfloop_convention(m), rules_struct.rule_label_writes(m)]
+
+
+def c05(m, tier):
+    return _pair(m, [DWG, UWG, LDG, LUG], ['F-PAIR.T', 'F-PAIR.L', 'F-PAIR.N', 'F-PAIR.M', 'F-KEY'],
+                 {'F-PAIR.T': 12, 'F-PAIR.L': 30, 'F-PAIR.N': 40, 'F-KEY': 15}) + [
+        rules_struct.rule_insertion_guard(m), rules_struct.rule_observers(m), rules_struct.rule_label_writes(m),
+        rules_decl.rule_encapsulation(m), rules_val.rule_getlabel(m)]
+
+
+def c06(m, tier):
+    return [rules_struct.rule_equality(m)] + _pair(
+        m, None, ['F-PAIR.L', 'F-PAIR.N', 'F-PAIR.S', 'F-KEY'], {'F-PAIR.L': 60, 'F-PAIR.N': 80, 'F-KEY': 30}) + [
+        rules_decl.rule_valsem(m), rules_struct.rule_label_writes(m)]
+
+
+def c16(m, tier):
+    return [rules_struct.rule_insertion_guard(m)] + _pair(
+        m, None, ['F-PAIR.N', 'F-PAIR.T', 'F-PAIR.M', 'F-PAIR.L'],
+        {'F-PAIR.N': 80, 'F-PAIR.T': 35, 'F-PAIR.M': 30, 'F-PAIR.L': 60})
+
+
+_STRUCT_TB = ['clang CFG and post-dominator based control dependence', 'bgx', 'the event vocabulary and benign-guard '
+              'table of bgcheck/rules_pair.py', 'std::list / std::unordered_map member semantics (remove, erase, clear, '
+              'operator[])']
+
 PROPERTIES = {
+    'C01': dict(
+        level='other', fn=c01,
+        explanation='Decides the structural skeleton of the directed storage class on every path of every mutator: each '
+                    'primitive list mutation is paired in its own control region with the matching update of the cached '
+                    'edge count (F-PAIR.N), resize sets size and list count together after the shrink check (F-PAIR.S), '
+                    'insertion happens exactly when force || !hasEdge of the same pair (F-INS, so re-adding is a no-op), '
+                    'hasEdge is a search of the successor list (F-HASEDGE), every vertex loop covers [0,size) (F-LOOP), '
+                    'observers use endpoints in their contractual roles (F-OBS), and state is reachable only through '
+                    'these mutators (D-ENC). Numerical observer results for a concrete graph are not decided.',
+        assumptions=['std::list/std::vector behave as specified'], trusted_base=_STRUCT_TB),
+    'C02': dict(
+        level='other', fn=c02,
+        explanation='Decides, on every path of every mutator of the undirected class: both half-edges are inserted and '
+                    'removed together and a loop is one entry (F-PAIR.M, evaluated over the three orderings of the two '
+                    'endpoints), the count changes once per pair (once-per-pair guards evaluated over the order domain), '
+                    'lookups use the canonical key (F-KEY, F-ORD.v: orderedEdge returns (min,max)), the self-loop '
+                    'convention of degrees/matrix is the documented one (F-ORD.iii), no directed mutator leaks through '
+                    'the protected base (D-ENC). Numerical results for a concrete graph are not decided.',
+        assumptions=['std::list behaves as specified'], trusted_base=_STRUCT_TB),
+    'C03': dict(
+        level='other', fn=c03,
+        explanation='Decides that there is no path on which an edge disappears and its label entry stays (F-PAIR.L: '
+                    'every removeAll / erase / clear of list entries is paired in its control region with the erase / '
+                    'clear of the same key; dedupe context is the one tabled exception), nor one on which the label of '
+                    'a live edge changes outside a designated setter (F-LSET: label writes only in the insertion region '
+                    'or a setter; setEdgeLabel writes iff force || hasEdge); undirected accesses use the canonical key '
+                    '(F-KEY); the missing-label mapping of _getLabel (F-GETLABEL); hasEdge(i,j,l) compares the label of '
+                    'the same pair.',
+        assumptions=['hash and equality of the key type (std::pair, hashEdge) are correct'], trusted_base=_STRUCT_TB),
+    'C04': dict(
+        level='other', fn=c04,
+        explanation='Decides that in both multigraphs the adjacency lists, the edge count, the multiplicity store and '
+                    'the running total are updated together, by the same amount, on every path (F-PAIR.N/.L/.T/.M incl. '
+                    'call-site pairing for base-class insertion and += / -= / overwrite pairing with the old value '
+                    'read first), that no zero multiplicity is stored and setEdgeMultiplicity(..,0) removes the whole '
+                    'multiedge (F-POS), canonical keys (F-KEY), observers read the multiplicity of the enumerated pair '
+                    '(F-OBS, F-ORD.iii). Arithmetic of the resulting sums for a given history is not decided.',
+        assumptions=['no arithmetic overflow of size_t totals'], trusted_base=_STRUCT_TB),
+    'C05': dict(
+        level='other', fn=c05,
+        explanation='Decides that every path that changes the stored weights changes the running total by the same '
+                    'quantity (F-PAIR.T: insert <-> += w, removeAll <-> -= w*k before the erase, erase <-> -= w under '
+                    'the once-per-pair guard, clear <-> = 0, overwrite <-> += new-old with old read first), labels live '
+                    'with their edges (F-PAIR.L), every undirected access uses the canonical key (F-KEY), the weight '
+                    'matrix addresses [i][j] with the weight of (i,j) (F-OBS). Floating-point values are not decided.',
+        assumptions=['floating point rounding is outside the claim'], trusted_base=_STRUCT_TB),
+    'C06': dict(
+        level='other', fn=c06,
+        explanation='Decides that operator== reads all and only value-bearing state (F-EQ: size, count, label store, '
+                    'mutual inclusion through hasEdge; all other ==/!= delegate; != negates) and that this state carries '
+                    'no history: no removed edge leaves a label, count or list residue (F-PAIR.L/.N/.S), orientation is '
+                    'irrelevant because of canonical keys (F-KEY), copies are member-wise deep (D-VALSEM).',
+        assumptions=['the label type\'s operator== is an equivalence'], trusted_base=_STRUCT_TB),
+    'C16': dict(
+        level='other', fn=c16,
+        explanation='Decides that force bypasses only the existence test (F-INS over all flag/existence combinations; '
+                    'validation is independent of force by C07), that removeEdge removes all copies with count -= k '
+                    '(F-PAIR.N removeAll), and that every removeDuplicateEdges erases under the seen-set guard with the '
+                    'count / total adjusted once per removed copy (once-per-pair in the undirected family) and the label '
+                    'kept (dedupe form of F-PAIR.N/.T/.M/.L).',
+        assumptions=['all copies of a pair carry the same label (stated in the property)'], trusted_base=_STRUCT_TB),
     'C07': dict(
         level='other', fn=c07,
         explanation='Decides, for every public entry point and every vertex argument, on every CFG path (all flag '
